@@ -5,7 +5,7 @@
    (kinds c04-overlap / c04-out-of-bounds); its proof over M2 needs the global invariant and is not done yet (DESIGN §10). *)
 From stdpp Require Import gmap.
 From Coq Require Import NArith.
-From BV Require Import Base Heap HeapLaws.
+From BV Require Import Base Heap HeapLaws HeapWF HeapWFOps HeapWFMain.
 Local Open Scope N_scope.
 
 Theorem C04_reserve_post : forall orc n x s e x' s' e', m_reserve orc n x s e = OK x' s' e' -> h_len x <= h_cap x ->
@@ -26,8 +26,28 @@ Example C04_unrepresentable_request_panics :
   match hstep {| or_caps := [] |} (OMReserve 1 (usize_max - 6)) s0 [] with PANIC s' [] => hs s' = hs s0 | _ => False end.
 Proof. vm_compute. reflexivity. Qed.
 
+(* the exclusivity half, from the global invariant (C02.v): in every state reachable by any history of well-typed operations, with every oracle,
+   the non-empty capacity windows [ptr, ptr+cap) of two different shared BytesMut handles on one buffer never overlap, and every BytesMut's
+   window (and its len <= cap) lies inside its live allocation; an inline (unshared) BytesMut is the only holder of its buffer *)
+Theorem C04_windows_disjoint : forall orcs n s h1 h2 k o1 l1 c1 o2 l2 c2, reach orcs n s -> h1 <> h2 ->
+  hs s !! h1 = Some (HM k o1 l1 c1 MArc) -> hs s !! h2 = Some (HM k o2 l2 c2 MArc) -> c1 = 0 \/ c2 = 0 \/ o1 + c1 <= o2 \/ o2 + c2 <= o1.
+Proof. intros orcs n s h1 h2 k o1 l1 c1 o2 l2 c2 Hr. apply wf_windows_disjoint. by eapply reach_wf. Qed.
+Theorem C04_window_inside_live_allocation : forall orcs n s h k o l c kd, reach orcs n s -> hs s !! h = Some (HM k o l c kd) ->
+  exists st, sts s !! k = Some st /\ s_live st = true /\ o + c <= s_size st /\ l <= c.
+Proof. intros orcs n s h k o l c kd Hr. apply wf_window_in_bounds. by eapply reach_wf. Qed.
+Theorem C04_inline_vec_is_sole_holder : forall orcs n s h k o l c ocr h' y, reach orcs n s -> hs s !! h = Some (HM k o l c (MVec ocr)) ->
+  hs s !! h' = Some y -> h' <> h -> holds y <> Some k.
+Proof.
+  intros orcs n s h k o l c ocr h' y Hr Hx Hy Hne. destruct (reach_wf _ _ _ Hr) as [L _].
+  destruct (lwf_typed _ _ L _ _ Hx) as (st & Hs & Hl & Hcl & Hc & _).
+  apply (refs_one_other (hs s) h (HM k o l c (MVec ocr)) k h' y); try done. by eapply (HeapWFPrim.st_ok_sole_n _ _ h _ k st L Hx).
+Qed.
+
 Print Assumptions C04_reserve_post.
 Print Assumptions C04_try_reclaim.
 Print Assumptions C04_try_reclaim_never_allocates.
 Print Assumptions C04_reserve_inner_false_is_noop.
 Print Assumptions C04_unrepresentable_request_panics.
+Print Assumptions C04_windows_disjoint.
+Print Assumptions C04_window_inside_live_allocation.
+Print Assumptions C04_inline_vec_is_sole_holder.
